@@ -34,13 +34,15 @@ DERIVED_FROM_LINKS = {"to_root", "level"}
 GUARDS = (
     ("MC_TreeImpl_swapbug.cfg", "ParentConsistent", True),
     ("MC_TreeImpl_swapbug_roots.cfg", "RootsHaveNoParent", True),
-    ("MC_TreeImpl_swapbug_dangling.cfg", "NoDangling", True),
+    ("MC_TreeImpl_swapbug_dangling.cfg", "NoDangling", False),
     ("MC_TreeImpl_copyassignbug.cfg", "ParentConsistent", False),
     ("MC_TreeImpl_moveassignbug.cfg", "ParentConsistent", False),
     ("MC_TreeImpl_insertnoparent.cfg", "ParentConsistent", False),
     ("MC_TreeImpl_copynoreparent.cfg", "ParentConsistent", False),
     ("MC_TreeImpl_erasekeeps.cfg", "Refines", True),
     ("MC_TreeImpl_pushfrontret.cfg", "ReturnsAgree", True),
+    # operator=(&&) assigning the child list in place: breaks `node = std::move(child of node)`
+    ("MC_TreeImpl_moveassigninplace.cfg", "NoDangling", True),
 )
 
 
@@ -322,7 +324,7 @@ def run(ctx):
     ctx.assumptions += [
         "use of a destroyed node (use-after-free, double free, leaks) is only OBSERVED via ASan/UBSan/LSan in the harness, not decided by the TLA+ spec; a parent() address that is not a live node is decided (logged as -2)",
         "label type int stands for all T; map is driven with x -> 2x+1 into a tree of long",
-        "API preconditions excluded from the generators: swap/assignment where one operand is the other or its ancestor/descendant, moving a tree into its own sub-tree, self-move, invalid iterators",
+        "API preconditions excluded from the generators: swap where one operand is the other or its ancestor/descendant, assignment from the node itself or from one of its ancestors (assignment from a proper descendant IS driven), moving a tree into its own sub-tree, self-move, invalid iterators",
         "the label and children of a moved-from node and the order sort() gives to equal labels are left open (only link well-formedness is demanded)",
         "TreeImpl.tla is a hand transcription (with the three repaired defects switchable); verdicts are only taken from traces of the real code judged by the abstract spec",
         "after the first rejected event of a history the rest of that history is not judged (stale links persist in the objects)",
